@@ -673,6 +673,7 @@ class MultiSetup_PreGER(BaseSetup, GeometryMixin):
             newdatasets.append(newdata)
 
         Y = pre_multisetup(newdatasets, self.ref_ind)
+        self.datasets = newdatasets
         self.data = Y
 
     # method to detrend data
@@ -714,4 +715,5 @@ class MultiSetup_PreGER(BaseSetup, GeometryMixin):
             newdatasets.append(newdata)
 
         Y = pre_multisetup(newdatasets, self.ref_ind)
+        self.datasets = newdatasets
         self.data = Y
